@@ -17,8 +17,23 @@ size_t xv_ap_q;         /* arbitrary character position, relative to the pointer
 #define AP_END (AP_STR_MAX - 1)
 #define AP_OFF(p) ((size_t)__CPROVER_POINTER_OFFSET(p))
 #define AP_REM(p) (AP_END - AP_OFF(p))     /* strlen(p) for p inside the string */
-#define AP_SPECIAL(c) ((c) == '[' || (c) == ']' || (c) == '.')   /* ATTR_PATH_INDEX_START, _INDEX_END, _KEY_DELIM (checked in contracts/attrpath.h) */
-#define AP_KEYCHAR(c) ((c) != 0 && !AP_SPECIAL(c))
-#define AP_DIGIT(c) ((c) >= '0' && (c) <= '9')
-#define AP_SPACE(c) ((c) == ' ' || ((c) >= '\t' && (c) <= '\r'))   /* isspace() in the C locale */
+/* character classes through ONE table lookup, so that a clause mentions the character (a memory read at a symbolic
+ * offset, the cost driver of this unit) only once */
+#define AP_C_SPACE 1    /* isspace() in the C locale */
+#define AP_C_SIGN 2
+#define AP_C_DIGIT 4
+#define AP_C_SPECIAL 8  /* ATTR_PATH_INDEX_START, _INDEX_END, _KEY_DELIM (checked against attr_path.h in contracts/attrpath.h) */
+#define AP_C_NUL 16
+static const unsigned char xv_ap_cls[256] = {
+    [0] = AP_C_NUL, ['\t'] = AP_C_SPACE, ['\n'] = AP_C_SPACE, ['\v'] = AP_C_SPACE, ['\f'] = AP_C_SPACE, ['\r'] = AP_C_SPACE, [' '] = AP_C_SPACE,
+    ['+'] = AP_C_SIGN, ['-'] = AP_C_SIGN,
+    ['0'] = AP_C_DIGIT, ['1'] = AP_C_DIGIT, ['2'] = AP_C_DIGIT, ['3'] = AP_C_DIGIT, ['4'] = AP_C_DIGIT,
+    ['5'] = AP_C_DIGIT, ['6'] = AP_C_DIGIT, ['7'] = AP_C_DIGIT, ['8'] = AP_C_DIGIT, ['9'] = AP_C_DIGIT,
+    ['['] = AP_C_SPECIAL, [']'] = AP_C_SPECIAL, ['.'] = AP_C_SPECIAL };
+#define AP_CLS(c) (xv_ap_cls[(c) & 0xff])
+#define AP_SPECIAL(c) ((AP_CLS(c) & AP_C_SPECIAL) != 0)
+#define AP_KEYCHAR(c) ((AP_CLS(c) & (AP_C_SPECIAL | AP_C_NUL)) == 0)
+#define AP_DIGIT(c) ((AP_CLS(c) & AP_C_DIGIT) != 0)
+#define AP_SPACE(c) ((AP_CLS(c) & AP_C_SPACE) != 0)
+#define AP_NUMCHAR(c) ((AP_CLS(c) & (AP_C_SPACE | AP_C_SIGN | AP_C_DIGIT)) != 0)   /* what strtol may consume */
 #endif
